@@ -136,7 +136,7 @@ def main():
   kf = {f["id"]: f for f in chk.kf.get("findings", []) if "C08" in f["property"]}
   for rec in SHIPPED:
     km, io, mixed = induced_modes(os.path.join(recdir, rec))
-    for name, (nops, kinds, nsub) in {"2op": (2, KINDS_2, 1), "3op": (3, KINDS_3, 1)}.items():
+    for name, (nops, kinds, nsub) in {"1op_allkinds": (1, configs.ALL_KINDS, 1), "2op": (2, KINDS_2, 1), "3op": (3, KINDS_3, 1)}.items():
       if args.tier == "quick" and name == "3op":
         continue
       c = configs.cfg(nops, kinds, [], [], [io[0]], share="tensor", max_sub=nsub, km={k: km[k] for k in kinds})
